@@ -1,5 +1,5 @@
-// Harnesses for spl_frontend/src/parser/utility.rs (property C01, parts A2/A3: reuse soundness and
-// diagnostics on reuse of the REAL generic `affected` combinator).
+// Harnesses for spl_frontend/src/parser/utility.rs (property C01, parts A2/A3/A4i: reuse soundness
+// and diagnostics on reuse of the REAL generic `affected` combinator, and the REAL `info` combinator).
 // Appended as `#[cfg(kani)] mod __verif { use super::*; ... }`.
 //
 // The real node parsers (nom over TokenStream) are out of reach of CBMC (DESIGN 1.1), so the real
@@ -8,7 +8,7 @@
 //                               look-ahead, which is exactly what affected()'s "range + 1" rule
 //                               protects; the parser is TOTAL on purpose: a parser whose Ok/Err
 //                               outcome is symbolic makes CBMC execute the drop glue of
-//                               Vec<SplError> on merged values, 10^7 SAT variables - DESIGN 1.1)
+//                               Vec<SplError> on merged values, 10^7 SAT variables - DESIGN 1.5)
 // whose from-scratch parser is `run_inner` below.  Oracle (what C01 says for a single node):
 //     if affected(Some(old_node), inner) REUSES the old node at position p of the new stream,
 //     then parsing from scratch at p yields the same node and the same rest position.
@@ -350,6 +350,10 @@ fn c01_a4_info() {
     }
     std::mem::forget(r);
 }
+
+// expect() was tried once more with a SCRIPTED node parser whose two answers are constants (Affected,
+// then Ok / Error), to exercise the retry-without-old-node control flow: no verdict in 10-20 min /
+// 20 GB either (the `match` arms of expect() move and drop ParserError values).  Not registered.
 
 #[kani::proof]
 #[kani::unwind(3)]
